@@ -63,7 +63,8 @@ def run(chk):
         scripts = [push(btc.xonly_pubkey(s)[0]) + O("CHECKSIG") for s in leafsecs]
         if kind == "long-scripts":
             scripts[0] = O("NOP") * 251 + b"\x51"; scripts[1] = O("NOP") * 252 + b"\x51"; scripts[3] = O("NOP") * 599 + b"\x51"
-        hrp = rng.choice(["bcrt", "bc", "tb", "sb"])
+        # address prefixes: the usual ones and others with the characters bech32 permits in a prefix (digits, punctuation)
+        hrp = (["bcrt", "bc", "tb", "sb", "reg_test", "a^b", "tb2", "ltc-test", "x", "@[\\]_", "1a", "!~"] + ["bcrt"] * 8)[len(work) % 20]
         work.append((n, idxs, kind, ikey, sec_int, leafsecs, scripts, hrp))
     recorded = []
     sessions = []
